@@ -9,6 +9,8 @@ import (
 	"encoding/binary"
 	"fmt"
 	"io"
+	"os"
+	"path/filepath"
 	"strings"
 	"testing"
 	"time"
@@ -490,6 +492,57 @@ var c01gens = map[string]func(t *rapid.T) c01case{
 		return c01case{kind: "date", want: want[:], varLen: 1,
 			mk: func() io.Reader { d := hotline.NewTime(tm); return bytes.NewReader(d[:]) }}
 	},
+	"filelist": func(t *rapid.T) c01case {
+		// The file-list records as the library builds them from a directory (GetFileNameList): every record must
+		// be a strictly parseable file-name-with-info whose name-size prefix equals the Mac-Roman name that follows.
+		n := rapid.IntRange(1, 5).Draw(t, "nfiles")
+		dir, err := os.MkdirTemp(worldBase(), "c01list-")
+		if err != nil {
+			t.Fatalf("harness: %v", err)
+		}
+		defer os.RemoveAll(dir)
+		want := map[string]int{}
+		for i := 0; i < n; i++ {
+			name := genFileName(t, fmt.Sprintf("fn%d", i))
+			if _, dup := want[string(macRoman(name))]; dup {
+				continue
+			}
+			if rapid.IntRange(0, 3).Draw(t, fmt.Sprintf("isdir%d", i)) == 0 {
+				must(os.Mkdir(filepath.Join(dir, name), 0o755))
+				want[string(macRoman(name))] = -1
+				continue
+			}
+			sz := rapid.IntRange(0, 300).Draw(t, fmt.Sprintf("sz%d", i))
+			must(os.WriteFile(filepath.Join(dir, name), make([]byte, sz), 0o644))
+			want[string(macRoman(name))] = sz
+		}
+		fields, err := hotline.GetFileNameList(dir, []string{`^\.`})
+		if err != nil {
+			t.Fatalf("GetFileNameList: %v", err)
+		}
+		var all []byte
+		got := map[string]int{}
+		for _, f := range fields {
+			rec, err := hlref.DecodeFileNameWithInfo(f.Data)
+			if err != nil {
+				t.Fatalf("file list record is not a well-formed file-name-with-info: %v (%x)", err, f.Data)
+			}
+			if string(rec.Type[:]) == "fldr" {
+				got[string(rec.Name)] = -1
+			} else {
+				got[string(rec.Name)] = int(rec.Size)
+			}
+			all = append(all, f.Data...)
+		}
+		if fmt.Sprint(got) != fmt.Sprint(want) {
+			t.Fatalf("file list records %v, directory holds %v", got, want)
+		}
+		v := 0
+		for k := range want {
+			v += len(k)
+		}
+		return c01case{kind: "filelist", want: all, varLen: v, mk: func() io.Reader { return bytes.NewReader(all) }}
+	},
 	"decoders": func(t *rapid.T) c01case {
 		// Decode-only types: reference encodes, mobius decodes.
 		var want []byte
@@ -651,7 +704,7 @@ func genNewsArtEntry(t *rapid.T, label string) (hlref.NewsArtListEntry, hotline.
 }
 
 var c01kinds = []string{"field", "transaction", "user", "account", "filenamewithinfo", "infofork", "flatfile", "resume", "fileheader",
-	"newsartlist", "newsartlistdata", "newscategory", "newscatlist", "tracker", "date", "decoders"}
+	"newsartlist", "newsartlistdata", "newscategory", "newscatlist", "tracker", "date", "decoders", "filelist"}
 
 func c01prop(ev *evid.Rec) func(t *rapid.T) {
 	return func(t *rapid.T) {
